@@ -23,6 +23,18 @@ def vec_shape(t):
     return None
 
 
+def ctx_seg(a, spec):
+    """segment of address `a` inside the context named by spec = (root arg, offset of the pointer field in the
+    handle or None when the parameter IS the context pointer, ...)."""
+    if a.root != ("arg", spec[0]):
+        return None
+    if spec[1] is None:
+        return a.segs[0] if len(a.segs) == 1 else None
+    if len(a.segs) == 2 and a.segs[0].off == spec[1]:
+        return a.segs[1]
+    return None
+
+
 class Lanes:
     def __init__(self, func, sources, out_arg=0, lane_sources=None, field_src=None, field_sink=None):
         # field_src / field_sink: (root arg, pointer-field offset in the handle, field offset, field size[, label])
@@ -97,12 +109,13 @@ class Lanes:
             self.unknown.append((i, "load through untracked pointer"))
             return tuple(frozenset(["?"]) for _ in range(n))
         fs = self.field_src
-        if fs and a.root == ("arg", fs[0]) and len(a.segs) == 2 and a.segs[0].off == fs[1]:
-            o = a.segs[1].off
+        cs = ctx_seg(a, fs) if fs else None
+        if cs is not None:
+            o = cs.off
             if o is not None and fs[2] <= o < fs[2] + fs[3]:
                 # row-sliced member: element j of every row vector belongs to block j
                 return tuple(frozenset([("ctr", j)]) for j in range(n))
-            if o is None and a.segs[1].rng and fs[2] <= a.segs[1].rng[0] < fs[2] + fs[3]:
+            if o is None and cs.rng and fs[2] <= cs.rng[0] < fs[2] + fs[3]:
                 return tuple(frozenset([("ctr", "*")]) for _ in range(n))
             return tuple(EMPTY for _ in range(n))
         if a.root[0] == "arg" and len(a.segs) == 1:
@@ -270,12 +283,13 @@ class Lanes:
                 continue
             fk = self.field_sink
             if fk:
-                if not (a.root == ("arg", fk[0]) and len(a.segs) == 2 and a.segs[0].off == fk[1]):
+                cs = ctx_seg(a, fk)
+                if cs is None:
                     continue
-                o = a.segs[1].off if a.segs[1].off is not None else (a.segs[1].rng[0] if a.segs[1].rng else None)
+                o = cs.off if cs.off is not None else (cs.rng[0] if cs.rng else None)
                 if o is None or not (fk[2] <= o < fk[2] + fk[3]):
                     continue
-                off = a.segs[1].off - fk[2] if a.segs[1].off is not None else None
+                off = cs.off - fk[2] if cs.off is not None else None
             else:
                 if a.root != ("arg", self.out_arg) or len(a.segs) != 1:
                     continue
